@@ -237,6 +237,8 @@ JudgeFault(sc, d, w0, w1, r) ==
   \o Chk(w1.after = 0, r, {"C12"}, "pin or bus operations were issued after the failure")
   \o Chk(r.name \notin {"sleep", "wake"} \/ r.obs.sleeping = d.sleeping, r, {"C12", "C13"},
          "sleep flag changed although the command failed")
+  \o Chk(r.name # "init" \/ Cardinality({i \in 1 .. Len(w1.cmds) : w1.cmds[i].op = 1}) <= 1, r, {"C12", "C17"},
+         "the software reset was sent more than once")
 
 ---------------------------------------------------------------------------
 \* transports addressed directly (C06, C07, C20)
